@@ -71,6 +71,7 @@ Apply(opr, oo) ==
     [] opr[1] = "copy" -> [oo EXCEPT ![opr[3]] = CopyR(r)]
     [] opr[1] = "setmap" -> [oo EXCEPT ![s] = SetMapR(r, opr[3])]
     [] opr[1] = "new" -> [oo EXCEPT ![s] = NewR(r.kind, opr[3])]
+    [] opr[1] = "var" -> [oo EXCEPT ![s] = VarR(r.kind, opr[3])]
     \* a real constraint method: which terms it adds is free (Constraints.tla decides that); the counter,
     \* the generated names and the number of recorded constraints follow the log
     [] opr[1] = "addcons" -> [oo EXCEPT ![s] = [r EXCEPT !.gen = @ \cup (r.anc..(Steps[l].slots[s].anc - 1)), !.ncons = @ + 1]]
@@ -83,7 +84,7 @@ Apply(opr, oo) ==
     [] opr[1] \in {"ctor", "info"} -> [oo EXCEPT ![opr[3]] = CopyR(r)]
     [] OTHER -> oo
 KnownOp(opr) == opr[1] \in {"setitem", "augadd", "iadd", "isub", "update", "imul", "iadd_scalar", "imul_scalar", "isub_scalar", "idiv", "ipow",
-                            "clear", "refresh", "copy", "new", "setmap", "addcons", "toenum", "bin", "binscalar", "neg", "pow", "div",
+                            "clear", "refresh", "copy", "new", "var", "setmap", "addcons", "toenum", "bin", "binscalar", "neg", "pow", "div",
                             "value", "mulraise", "poke", "ctor", "info"}
 
 \* ---- clauses ----
@@ -121,6 +122,11 @@ ImplMappingBijectionP == IF First THEN TRUE ELSE
 \* weaker than the bijection (which create_from_info of a STALE model does not restore): two labels never share an integer
 ImplMappingInjectiveP == IF First THEN TRUE ELSE
     \A s \in Slots : IsLabelled(o[s].kind) => Cardinality({o[s].map[x] : x \in DOMAIN o[s].map}) = Cardinality(DOMAIN o[s].map)
+\* Python equality of the two objects (both directions, and !=) says exactly whether they denote the same function - whatever
+\* their histories, caches and classes
+ImplEqualityP == IF First THEN TRUE ELSE
+    LET same == FromRaw(IsSpin(o[1].kind), St.slots[1].ts) = FromRaw(IsSpin(o[2].kind), St.slots[2].ts)
+    IN St.eq = <<same, same, ~same>>
 RawCanon(sl) == /\ \A i \in 1..Len(sl.ts) : sl.ts[i][2] # 0 /\ Cardinality(ToSet(sl.ts[i][1])) = Len(sl.ts[i][1])
                 /\ \A i, j \in 1..Len(sl.ts) : i # j => ToSet(sl.ts[i][1]) # ToSet(sl.ts[j][1])
 ImplStoredCanonicalP == IF First THEN TRUE ELSE \A s \in Slots : RawCanon(St.slots[s])
@@ -158,10 +164,11 @@ ImplEnumLabelsP == IF First THEN TRUE ELSE
 \* label the harness writes into the ARGUMENT after the call / into getter results / into info dictionaries never shows
 \* up in a model's terms, mapping or recorded constraints (`poked` is that observation, made on the projection)
 ImplNoAliasP == IF First THEN TRUE ELSE \A ss \in Slots : ~St.slots[ss].poked
-AllOK == ImplMappingInjectiveP /\ ImplNoAliasP /\ ImplValueP /\ ImplInfoSameP /\ ImplCopySameP /\ TermsMatchP /\ KindMatchP /\ ImplNoRaiseP /\ ImplUpperBoundsP /\ ImplMappingBijectionP /\ ImplStoredCanonicalP
+AllOK == ImplEqualityP /\ ImplMappingInjectiveP /\ ImplNoAliasP /\ ImplValueP /\ ImplInfoSameP /\ ImplCopySameP /\ TermsMatchP /\ KindMatchP /\ ImplNoRaiseP /\ ImplUpperBoundsP /\ ImplMappingBijectionP /\ ImplStoredCanonicalP
          /\ ImplRefreshExactP /\ ImplAncCoversP /\ ImplAncFreshP /\ ImplUnchangedOthersP /\ ImplEnumLabelsP
 ImplNoAlias == Clause("ImplNoAlias", ImplNoAliasP)
 ImplMappingInjective == Clause("ImplMappingInjective", ImplMappingInjectiveP)
+ImplEquality == Clause("ImplEquality", ImplEqualityP)
 ImplValue == Clause("ImplValue", ImplValueP)
 ImplInfoSame == Clause("ImplInfoSame", ImplInfoSameP)
 ImplCopySame == Clause("ImplCopySame", ImplCopySameP)
